@@ -1,5 +1,6 @@
 import FimVerif.Drivers.Proto
 import FimVerif.Model.Validate
+import FimVerif.Model.ValidateHist
 import FimVerif.Proofs.Lemmas.C10Dec
 /-! Driver for C10: runs `Validate.validate` / `Validate.connect` on request lines.
 
@@ -8,8 +9,15 @@ import FimVerif.Proofs.Lemmas.C10Dec
   overrides = `{"svc": {ty: [min,num,sites,inst,[req],[forb],[iftypes]]}, "node": {ty: [[req],[forb]]}}`
   reply `[status, [site|null ..], specOK, specFull]`, status = "ok" | error kind; the two booleans are
   `decide (SpecOK cfg t)` and `decide (SpecFull cfg t)` (the declarative specifications of Proofs/Lemmas/C10.lean)
-`["connect", viaCtor, ty, kind, ownerPresent, connected]` reply `[status]` -/
-open Lean FimVerif.Proto FimVerif.Validate
+`["connect", viaCtor, ty, kind, ownerPresent, connected]` reply `[status]`
+`["history", overrides|null, exp, nodes, ifaces, owned, svcs, ops]` (Model/ValidateHist.lean)
+  nodes `[[id,label,ty,site,[props],[hollow],[blank],[component ids]]..]`, ifaces `[[id,label,kind,node,comp|null]..]`,
+  owned `[[label,ty,node,comp|null,[iface ids]]..]`, svcs `[[label,ty,site|null,[props],[hollow],[blank]]..]`,
+  ops `["connect",svc,iface] | ["disconnect",iface] | ["removeNode",n] | ["removeComp",n,k] | ["renameNode",n,label] |
+  ["renameIface",i,label] | ["setSite",n,site] | ["peer",a,b] | ["unpeer",a,b] | ["disconnectPort",a,b] | ["validate"]`
+  reply `[[status of every call], [[ty,[props],[hollow],[blank]]..], [[label, svc as in a validate request]..], specFull]`:
+  the slice as it is after the history (`Hist.abs`) and `decide (SpecFull cfg (abs σ))` -/
+open Lean FimVerif.Proto FimVerif.Validate FimVerif.Validate.Hist
 open FimVerif.Gen.Constraints (SvcRow NodeRow)
 
 def optStr (j : Json) : Option (Option String) :=
@@ -88,8 +96,71 @@ def status : Res → String
   | .ok _ => "ok"
   | .error e => e.name
 
+def nat? (j : Json) : Option Nat := j.getNat?.toOption
+def str? (j : Json) : Option String := j.getStr?.toOption
+def optNat (j : Json) : Option (Option Nat) := if j.isNull then some none else (nat? j).map some
+def getNats (j : Json) : Option (List Nat) := (arr? j).bind (·.mapM nat?)
+
+def parseHNode (j : Json) : Option HNode := do
+  let [id, l, ty, site, p, h, b, cs] ← arr? j | none
+  pure { id := ← nat? id, label := ← str? l, ty := ← str? ty, site := ← str? site, props := ← getStrs p,
+         hollow := ← getStrs h, blank := ← getStrs b, comps := ← getNats cs }
+
+def parseHIface (j : Json) : Option HIface := do
+  let [id, l, k, n, c] ← arr? j | none
+  pure { id := ← nat? id, label := ← str? l, kind := ← str? k, node := ← nat? n, comp := ← optNat c }
+
+def parseHOwned (j : Json) : Option HOwned := do
+  let [l, ty, n, c, ifs] ← arr? j | none
+  pure { label := ← str? l, ty := ← str? ty, site := none, node := ← nat? n, comp := ← optNat c, ifs := ← getNats ifs }
+
+def parseHSvc (j : Json) : Option HSvc := do
+  let [l, ty, site, p, h, b] ← arr? j | none
+  pure { label := ← str? l, ty := ← str? ty, site := ← optStr site, props := ← getStrs p, hollow := ← getStrs h,
+         blank := ← getStrs b, ports := [] }
+
+def parseOp (j : Json) : Option Op := do
+  match ← arr? j with
+  | [.str "connect", s, i] => pure (.connect (← str? s) (← nat? i))
+  | [.str "disconnect", i] => pure (.disconnect (← nat? i))
+  | [.str "removeNode", n] => pure (.removeNode (← nat? n))
+  | [.str "removeComp", n, k] => pure (.removeComp (← nat? n) (← nat? k))
+  | [.str "renameNode", n, l] => pure (.renameNode (← nat? n) (← str? l))
+  | [.str "renameIface", i, l] => pure (.renameIface (← nat? i) (← str? l))
+  | [.str "setSite", n, x] => pure (.setSite (← nat? n) (← str? x))
+  | [.str "peer", a, b] => pure (.peer (← str? a) (← str? b))
+  | [.str "unpeer", a, b] => pure (.unpeer (← str? a) (← str? b))
+  | [.str "disconnectPort", a, b] => pure (.disconnectPort (← str? a) (← str? b))
+  | [.str "validate"] => pure .validate
+  | _ => none
+
+def nifJson (i : NIface) : Json := Json.arr #[Json.str i.kind, siteJson i.owner]
+
+def sifJson : SIface → Json
+  | .direct n k => Json.arr #[Json.str "d", Json.str n, Json.str k]
+  | .port n none => Json.arr #[Json.str "p", Json.str n, Json.null]
+  | .port n (some ps) => Json.arr #[Json.str "p", Json.str n, Json.arr (ps.map nifJson).toArray]
+
+def svcJson (s : Svc) : Json :=
+  Json.arr #[Json.str s.ty, siteJson s.site, ofStrs s.props, siteJson s.owner, Json.arr (s.ifs.map sifJson).toArray,
+             ofStrs s.hollow, ofStrs s.blank]
+
+def nodeJson (n : Node) : Json := Json.arr #[Json.str n.ty, ofStrs n.props, ofStrs n.hollow, ofStrs n.blank]
+
 def handle (j : Json) : Json :=
   match j with
+  | .arr #[.str "history", ov, .bool exp, nodes, ifaces, owned, svcs, ops] =>
+    match applyOverrides genCfg ov, (arr? nodes).bind (·.mapM parseHNode), (arr? ifaces).bind (·.mapM parseHIface),
+          (arr? owned).bind (·.mapM parseHOwned), (arr? svcs).bind (·.mapM parseHSvc), (arr? ops).bind (·.mapM parseOp) with
+    | some c, some ns, some is, some os, some ss, some ops =>
+      let σ0 : Slice := { exp := exp, nodes := ns, ifaces := is, owned := os, svcs := ss, next := 0 }
+      let r := Hist.run c σ0 ops
+      let t := Hist.abs r.2
+      let labels := r.2.owned.map (·.label) ++ r.2.svcs.map (·.label)
+      Json.arr #[Json.arr (r.1.map (fun x => Json.str (status x))).toArray, Json.arr (t.nodes.map nodeJson).toArray,
+                 Json.arr ((labels.zip t.svcs).map (fun p => Json.arr #[Json.str p.1, svcJson p.2])).toArray,
+                 Json.bool (decide (SpecFull c t))]
+    | _, _, _, _, _, _ => err "bad-args"
   | .arr #[.str "validate", ov, .bool exp, nodes, svcs] =>
     match applyOverrides genCfg ov, (arr? nodes).bind (·.mapM parseNode), (arr? svcs).bind (·.mapM parseSvc) with
     | some c, some ns, some ss =>
